@@ -759,3 +759,40 @@ func (la *LockAnalysis) Order() {
 		c.OK("K8c", "lock-order", "the acquired-while-holding graph is acyclic", "-", fmt.Sprintf("%d edges over %d locks", ne, len(nodes)))
 	}
 }
+
+// GuardedByAny (K8d): in the listed functions, every access to field tf
+// happens with at least one lock held (whichever); reports one obligation per
+// function. Used for structures that have no designated lock at all.
+func (la *LockAnalysis) GuardedByAny(tf string, fns []string, why string) {
+	c := la.c
+	for _, name := range fns {
+		fn := c.P.Funcs[name]
+		if fn == nil {
+			c.Fail("anchor", name, "function resolves", "-", "")
+			continue
+		}
+		n, unlocked := 0, ""
+		for _, b := range fn.Blocks {
+			for _, ins := range b.Instrs {
+				fa, ok := ins.(*ssa.FieldAddr)
+				if !ok || typeField(fa) != tf {
+					continue
+				}
+				n++
+				if len(la.HeldAt(ins)) == 0 {
+					unlocked = c.At(ins)
+				}
+			}
+		}
+		if n == 0 {
+			continue
+		}
+		c.Sites += n
+		what := "accesses of " + tf + " hold a common lock"
+		if unlocked == "" {
+			c.OK("K8d", name, what, "-", why)
+		} else {
+			c.Fail("K8d", name, what, unlocked, "no lock is held ("+why+")")
+		}
+	}
+}
